@@ -301,6 +301,44 @@ BcProgs ==
          ECall(N_len, <<ECall(N_pair, <<Add(EInt(1), EInt(2)), ECall(N_len, <<Var(N_xs)>>)>>)>>),
          EList(<<ECall(N_pair, <<EInt(1), EInt(2)>>), ECall(N_pair, <<EInt(3), EInt(4)>>)>>)>>
 
+(* ------------------------------------------------------------------ C18: four notions of sameness *)
+L1(x) == EList(<<x>>)
+Eq(a, b) == ECall(N_eqeq, <<a, b>>)
+LenOf(e) == ECall(N_len, <<e>>)
+\* one program per pair: [ ==, one element under union (both orders), intersect, diff, (scalars:) one map entry / key found ]
+SameProg(x, y, scalar) ==
+  \* (the canonical rendering itself -- val.String -- is recorded for every result and compared by Trace_Eval;
+  \*  set membership is decided by it)
+  EList(<<Eq(L1(x), L1(y)), Eq(LenOf(ECall(N_union, <<L1(y), L1(x)>>)), EInt(1)),
+          Eq(LenOf(ECall(N_union, <<L1(x), L1(y)>>)), EInt(1)),
+          Eq(LenOf(ECall(N_intersect, <<L1(x), L1(y)>>)), EInt(1)),
+          Eq(LenOf(ECall(N_diff, <<L1(x), L1(y)>>)), EInt(0))>>
+        \o (IF scalar THEN <<Eq(LenOf(EMap(<<EPair(x, EInt(0)), EPair(y, EInt(0))>>)), EInt(1)),
+                             ECall(N_isset, <<EMap(<<EPair(x, EInt(0))>>), y>>)>> ELSE <<>>))
+SameNums == <<EInt(0), EInt(1), ENum(Half(1)), ENum(Half(5)), Neg(EInt(1)), Neg(ENum(Half(5))), EInt(10), EInt(9), EInt(100)>> \o BigPool
+SameStrs == <<S(<<>>), S(<<97>>), S(<<97, 34, 98, 92>>), S(<<233>>), S(<<10>>), S(<<97, 98>>), S(<<49>>), Var(N_s)>>
+SameBools == <<EBool(TRUE), EBool(FALSE), Var(N_b)>>
+SameTimes == <<ETime(0), ETime(86400), Var(N_tm), ECall(N_strtotime, <<S(<<64, 56, 54, 52, 48, 48>>)>>)>>
+SameLists == <<EList(<<EInt(1), EInt(2)>>), EList(<<EInt(2), EInt(1)>>), EList(<<EInt(1), EInt(2), EInt(1)>>), EList(<<ENum(Half(1))>>),
+               Var(N_xs), EList(<<EInt(1), EInt(2), EInt(3)>>), Var(N_ys), EList(<<>>)>>
+SameMaps == <<EMap(<<EPair(S(<<97>>), EInt(1)), EPair(S(<<98>>), EInt(2))>>), EMap(<<EPair(S(<<98>>), EInt(2)), EPair(S(<<97>>), EInt(1))>>),
+              EMap(<<EPair(S(<<97>>), EInt(1)), EPair(S(<<98>>), EInt(3))>>), Var(N_m),
+              EMap(<<EPair(S(<<97>>), EInt(2)), EPair(S(<<97>>), EInt(1)), EPair(S(<<98>>), EInt(2))>>)>>
+Obj3(a, b, c, perm) == LET fs == <<EFld(N_a, a), EFld(N_b, b), EFld(N_c, c)>> IN EObj([i \in 1..3 |-> fs[perm[i]]])
+SameObjs == <<Var(N_ob), Var(N_oba), ObLit, ObaLit, EObj(<<EFld(N_a, EInt(1)), EFld(N_b, S(<<121>>))>>),
+              EObj(<<EFld(N_b, S(<<120>>)), EFld(N_a, EInt(1))>>)>>
+SameObjs3 == <<Obj3(EInt(2), EInt(3), EInt(1), <<3, 1, 2>>), Obj3(EInt(2), EInt(3), EInt(1), <<1, 2, 3>>), Obj3(EInt(2), EInt(3), EInt(1), <<2, 3, 1>>),
+               Obj3(EInt(2), EInt(3), EInt(4), <<3, 2, 1>>), Obj3(EInt(3), EInt(2), EInt(1), <<1, 3, 2>>)>>
+SameOpts == <<Var(N_mx), Var(N_mj), ESub(Var(N_lo), EInt(0)), ESub(Var(N_lo), EInt(1))>>
+SameNested == <<EList(<<Var(N_ob), Var(N_oba)>>), EList(<<Var(N_oba), Var(N_ob)>>), Var(N_os), EList(<<ObLit, ObaLit>>),
+                EList(<<EList(<<EInt(1)>>), EList(<<>> )>>)>>
+SamePairs(pool, scalar) == Prod2(pool, pool, LAMBDA x, y : SameProg(x, y, scalar))
+SameProgs == SamePairs(SameNums, TRUE) \o SamePairs(SameStrs, TRUE) \o SamePairs(SameBools, TRUE) \o SamePairs(SameTimes, TRUE)
+               \o SamePairs(SameLists, FALSE) \o SamePairs(SameMaps, FALSE) \o SamePairs(SameObjs, FALSE) \o SamePairs(SameObjs3, FALSE)
+               \o SamePairs(SameOpts, FALSE) \o SamePairs(SameNested, FALSE)
+               \o Map1(SameObjs3 \o SameObjs \o SameMaps \o SameNested, LAMBDA x : ECall(N_string, <<x>>))
+               \o Map1(SameObjs3 \o SameObjs \o SameMaps \o SameNested, LAMBDA x : L1(x))
+
 (* ------------------------------------------------------------------ C05: registration orders *)
 GArgs == <<Var(N_n), Var(N_s), Var(N_xs), Var(N_ss), Var(N_ys), EList(<<>>), EList(<<EInt(1)>>), Var(N_ob), Var(N_m), Var(N_mx),
            EInt(1), S(<<97>>), EList(<<Var(N_xs)>>)>>
